@@ -256,6 +256,7 @@ def engine_a_check(pid, tier, jobs, required_reach, assumptions, level_note, out
     finally:
         shutil.rmtree(tmp, ignore_errors=True)
     pkg_of = {j["harness"]: j["pkg"] for j in jobs}
+    job_params = [dict(j.get("params") or {}, sched=j.get("sched", "first")) for j in jobs]
     states = transitions = 0
     funcs = {}
     queries = {"calls": 0, "sat": 0, "unsat": 0, "unknown": 0, "errors": 0}
@@ -286,7 +287,12 @@ def engine_a_check(pid, tier, jobs, required_reach, assumptions, level_note, out
         for s in r.get("stubs_used") or []:
             stubs.add(s)
         exhaustive = exhaustive and r["exhaustive"]
-        per_harness[h] = {"paths": r["paths"], "ends": r["ends"], "decisions": r["decisions"], "schedule_decisions": r["schedule_decisions"],
+        hk = h
+        i = 2
+        while hk in per_harness:
+            hk = "%s#%d" % (h, i)
+            i += 1
+        per_harness[hk] = {"params": job_params.pop(0) if job_params else None, "paths": r["paths"], "ends": r["ends"], "decisions": r["decisions"], "schedule_decisions": r["schedule_decisions"],
                           "pruned": r["pruned"], "reach": {k: v["count"] for k, v in (r.get("reach") or {}).items()},
                           "wall_s": round(r["wall_s"], 2), "exhaustive": r["exhaustive"], "max_steps_seen": r["max_steps_seen"],
                           "asserts_symbolic": r["asserts_checked"], "asserts_concrete": r["asserts_concrete"]}
@@ -571,10 +577,12 @@ def c16(tier):
     jobs = [T("utils", "VerifC16_TypeLine", {"N": n, "D": d}), T("utils", "VerifC16_ExtendedTypeLine", {"N": n, "D": d}),
             T("utils", "VerifC16_ConditionLine", {"N": n, "D": d}), T("utils", "VerifC16_RelationLine", {"N": n, "D": d}),
             T("utils", "VerifC16_Column", {"N": 3}),
-            T("transformer", "VerifC03_PrePass", {"N": W(tier, 6, 8)})]
+            T("transformer", "VerifC03_PrePass", {"N": W(tier, 6, 8)}),
+            T("transformer", "VerifC07_Merge", {"SCEN": 1, "N": 2, "NR": 1}),
+            T("transformer", "VerifC07_Merge", {"SCEN": 0, "F": 2, "DECLS": 3, "RELS": 1, "CONDS": 1, "FAULTS": 0, "N": 2, "NR": 1})]
     out = engine_a_check("C16", tier, jobs,
                          {"VerifC16_TypeLine": ["type"], "VerifC16_ExtendedTypeLine": ["extend"], "VerifC16_ConditionLine": ["condition"],
-                          "VerifC16_RelationLine": ["relation"], "VerifC16_Column": ["column"], "VerifC03_PrePass": ["lemmas-checked"]},
+                          "VerifC16_RelationLine": ["relation"], "VerifC16_Column": ["column"], "VerifC03_PrePass": ["lemmas-checked"], "VerifC07_Merge": ["rejected"]},
                          ["ANTLR token positions with respect to the cleaned text are outside (lexer/parser not encoded)",
                           "declaration lines follow the layout <indent><keyword> <name><tail>"], "",
                          bounds={"line lookups": "<= %d declarations, names of length 1..%d over {a,b,_,.,-}, 3 indents, 2-3 tails" % (d + 1, n),
@@ -718,7 +726,39 @@ def c03(tier):
     out.finish()
 
 
-REGISTRY = {"C15": c15, "C18": c18, "C16": c16, "C14": c14, "C03": c03, "C02": c02, "C13": c13, "C08": c08,
+MERGE_ASSUME = ["TransformModularDSLToProto (lexer+parser+listener) is replaced by a stub returning the listener result for the generated declarations; the contract is validated natively on every replayed witness",
+                "file layout: header, one declaration per line as printed by the harness; names over {a,b}"]
+
+
+def merge_jobs(tier, harness, pols):
+    jobs = []
+    n = W(tier, 2, 2)
+    for scen, extra in ((1, {}), (2, {}), (0, {"F": 2, "DECLS": W(tier, 3, 4), "RELS": W(tier, 1, 2), "CONDS": 1, "FAULTS": 0}),
+                        (0, {"F": 2, "DECLS": 2, "RELS": 1, "CONDS": 1, "FAULTS": 1, "N": 1})):
+        params = dict({"SCEN": scen, "N": n, "NR": 1}, **extra)
+        jobs.append(T("transformer", harness, params, **pols))
+    return jobs
+
+
+MERGE_BOUNDS = {"SCEN 1": "base type + two/three extensions in 2-3 files, names symbolic (length <= 2 types, 1 relations)",
+                "SCEN 2": "relation-less base type, two extending files, optional conditions",
+                "SCEN 0": "2-3 files, global budget of declarations/relations/conditions as in per_harness params, every name symbolic; FAULTS=1 adds model headers and syntax errors"}
+
+
+def c07(tier):
+    jobs = merge_jobs(tier, "VerifC07_Merge", FIRST)
+    out = engine_a_check("C07", tier, jobs, {"VerifC07_Merge": ["accepted", "rejected"]}, MERGE_ASSUME, "", bounds=MERGE_BOUNDS)
+    out.finish()
+
+
+def c12(tier):
+    jobs = merge_jobs(tier, "VerifC12_Deterministic", ALL)[:3] + merge_jobs(tier, "VerifC12_Permuted", FIRST)[:3]
+    out = engine_a_check("C12", tier, jobs, {"VerifC12_Deterministic": ["accepted", "rejected"], "VerifC12_Permuted": ["accepted", "rejected"]},
+                         MERGE_ASSUME + ["every iteration order of the maps ranged over in module-to-model.go (self-composition: two merges, independent orders)"], "", bounds=MERGE_BOUNDS)
+    out.finish()
+
+
+REGISTRY = {"C07": c07, "C12": c12, "C15": c15, "C18": c18, "C16": c16, "C14": c14, "C03": c03, "C02": c02, "C13": c13, "C08": c08,
             "C04": c04, "C05": c05, "C06": c06, "C10": c10, "C11": c11}
 
 
